@@ -143,6 +143,10 @@ func builtinIntrinsics() map[string]intrinsic {
 		}
 		return p.st.BV(64, uint64(def))
 	}
+	// verifCallDepth() int: the current call depth (natively: the number of logical stack frames)
+	m["@verifCallDepth"] = func(p *Path, fr *frame, pos token.Pos, args []Value) Value {
+		return p.st.BV(64, uint64(p.depth))
+	}
 	// verifConcretize(x, max) int: case split an int value
 	m["@verifConcretize"] = func(p *Path, fr *frame, pos token.Pos, args []Value) Value {
 		max := p.concInt(args[1], "bound")
